@@ -5,7 +5,7 @@
    proved exact (Properties_C03.reference_is_semantics) and compared with the real scanner, including
    patterns that the engine splits at jumps above YR_STRING_CHAINING_THRESHOLD and re-joins. *)
 From Coq Require Import List Arith NArith Sorting.Sorted.
-From YV Require Import Base.Bytes Spec.RegexSpec Proofs.RegexProofs.
+From YV Require Import Base.Bytes Spec.RegexSpec Proofs.RegexProofs Spec.HexSpec Proofs.HexProofs.
 Import ListNotations.
 
 Theorem hex_reference_is_semantics : forall buf r i j, (i <= length buf)%nat ->
@@ -30,5 +30,29 @@ Example hex_example :   (* { 61 [1-2] 63 } on "a.c a..c a...c" *)
   let r := RCat (RSet (CByte 97)) (RCat (rrep (RSet CAny) 1 (Some 2)) (RSet (CByte 99))) in
   map fst (re_matches_all [97; 46; 99; 32; 97; 46; 46; 99; 32; 97; 46; 46; 46; 99]%N r) = [0; 4].
 Proof. vm_compute. reflexivity. Qed.
+(* The interval-based reference used for patterns that the engine splits into chained pieces (Spec/HexSpec.v:
+   binary positions, a jump maps a set of positions to a union of intervals) is exact as well: for a hex string
+   whose jumps have min <= max (others are rejected at compile time), it lists offset o with length len iff the
+   translated expression matches the span [o, o+len). *)
+Theorem hex_fast_reference_exact : forall buf p i j, hex_wf p = true -> (i <= N.of_nat (length buf))%N ->
+  (In j (hends buf p [i]) <-> M buf (hex_to_re p) (N.to_nat i) (N.to_nat j)).
+Proof. exact hex_fast_reference_exact_proof. Qed.
+Print Assumptions hex_fast_reference_exact.
+
+Theorem hex_fast_matches_exact : forall buf p, hex_wf p = true ->
+  forall o len, (0 < len)%N ->
+    ((exists ls, In (o, ls) (hex_matches_all buf p) /\ In len ls) <->
+     M buf (hex_to_re p) (N.to_nat o) (N.to_nat o + N.to_nat len)).
+Proof. exact hex_matches_exact_proof. Qed.
+Print Assumptions hex_fast_matches_exact.
+
+Example hex_fast_example :   (* { 61 [1-2] ( 63 | 64 ) } on "a.c a..d a...c": the same answer as the expanded expression *)
+  let p := HJump 1 2 (HAltP (HTok (CByte 99) HNil) (HTok (CByte 100) HNil) HNil) in
+  let buf := [97; 46; 99; 32; 97; 46; 46; 100; 32; 97; 46; 46; 46; 99]%N in
+  hex_wf (HTok (CByte 97) p) = true /\
+  hex_matches_all buf (HTok (CByte 97) p) = [(0, [3]); (4, [4])]%N /\
+  map fst (re_matches_all buf (hex_to_re (HTok (CByte 97) p))) = [0; 4].
+Proof. vm_compute. repeat split. Qed.
+
 (* not proved (correspondence only): the splitting of a pattern into chained pieces and their re-joining
    (split_preserves_lang / chain_confirm_exact of the design), and the fast matcher of re.c. *)
